@@ -117,18 +117,11 @@ func (fsm *FSM) GetFSMInstance(dkgRoundID string, createIfMissing bool) (*state_
 		if !createIfMissing {
 			return nil, fmt.Errorf("no FSM instance found for the given dkgID %s", dkgRoundID)
 		}
+		// The new instance is not saved here: the caller saves it after the message
+		// which creates the round has been accepted, a rejected message must not leave a round behind
 		fsmInstance, err = state_machines.Create(dkgRoundID)
 		if err != nil {
 			return nil, fmt.Errorf("failed to create FSM instance: %w", err)
-		}
-
-		bz, err := fsmInstance.Dump()
-		if err != nil {
-			return nil, fmt.Errorf("failed to Dump FSM instance: %w", err)
-		}
-
-		if err := fsm.SaveFSM(dkgRoundID, bz); err != nil {
-			return nil, fmt.Errorf("failed to SaveFSM: %w", err)
 		}
 	}
 
